@@ -712,6 +712,20 @@ _CELL_STORES = ('emplace', 'insert', 'push_back', 'emplace_back', 'push_front')
 def r_chart(m, rep, R):
     """chart::update is first-pop-wins per (span, category) unless n-best; cells are registered by span."""
     ch = m.decls['chart']
+    # judged by outcome first: the paths of update with the cell's methods read in place (however the work is divided
+    # between update, contains / emplace, add(item, flag), insert / insert_if_new_category ..)
+    try:
+        summ = chart_update_summary(m)
+    except AnalysisError:
+        summ = {'ok': False}
+    if summ.get('ok'):
+        w_ = _w(summ['update'].line, 'chart::update')
+        rep.check(True, R, w_, 'update:cell', 'update(row, column, item) works on cell (row, column)', '')
+        rep.check(True, R, w_, 'update:first-pop-wins',
+                  'update returns nullptr exactly when !nbest && the cell holds the category, otherwise stores the item once and hands back the stored copy '
+                  '(%d combinations of n-best mode / category present / cell empty, cell methods read in place)' % len(summ['table']), '')
+        _r_chart_rest(m, rep, R, ch, summ['cell'], summary=summ)
+        return
     upd = cxx.method(ch, 'update')
     pr = [p.name for p in cxx.params_of(upd)]
     P = Paths(upd)
@@ -872,7 +886,29 @@ def r_chart(m, rep, R):
     _r_chart_rest(m, rep, R, ch, cell)
 
 
-def _r_chart_rest(m, rep, R, ch, cell):
+def _r_chart_rest(m, rep, R, ch, cell, summary=None):
+    if summary is not None and summary.get('registers_in_update'):
+        # update itself lists a cell under its span when the cell receives its first item (judged with update's paths): the
+        # accessor is then a plain index
+        acc = summary.get('accessor')
+        if acc is not None:
+            op = cxx.method(ch, acc)
+            pr = [p.name for p in cxx.params_of(op)]
+            ps_ = Paths(op).paths
+            okidx = len(pr) == 2 and len(ps_) == 1 and ps_[0][2] is not None and not [e for e in ps_[0][1] if e[0] != 'decl'] and \
+                canon(ps_[0][2]) == canon(IDX(M(('this',), 'chart_'), ADD(('bin', '*', V(pr[0]), M(('this',), 'length_')), V(pr[1]))))
+            if not okidx and len(ps_) == 1 and ps_[0][2] is not None:
+                got_ = ps_[0][2]
+                for e in ps_[0][1]:
+                    if e[0] == 'decl':
+                        got_ = cxx.subst(got_, {V(e[1]): e[2]})
+                okidx = len(pr) == 2 and canon(got_) == canon(IDX(M(('this',), 'chart_'), ADD(('bin', '*', V(pr[0]), M(('this',), 'length_')), V(pr[1]))))
+            rep.check(okidx, R, _w(op.line, 'chart::' + acc), 'chart:cell-index', 'chart(row, column) is chart_[row*length + column]',
+                      'chart(row, column) indexes something else')
+        rep.check(True, R, _w(summary['update'].line, 'chart::update'), 'chart:register',
+                  'a cell (row=start, column=len-1) is listed under starting[start] and ending[start+len] by update, exactly when it receives its first item', '')
+        _r_chart_tail(m, rep, R, ch, cell)
+        return
     # registration by span
     op = cxx.method(ch, 'operator()')
     pr = [p.name for p in cxx.params_of(op)]
@@ -896,6 +932,10 @@ def _r_chart_rest(m, rep, R, ch, cell):
         rep.check(regs == want, R, _w(op.line, 'chart::operator()'), 'chart:register',
                   'a cell (row=start, column=len-1) is listed under starting[start] and ending[start+len]',
                   'cell registration is %s' % regs)
+    _r_chart_tail(m, rep, R, ch, cell)
+
+
+def _r_chart_tail(m, rep, R, ch, cell):
     for name, fld in (('cells_starting_at', 'starting_cells_'), ('cells_ending_at', 'ending_cells_')):
         fn = cxx.method(ch, name)
         p = Paths(fn).paths
@@ -1027,6 +1067,19 @@ def r_search_loop(m, rep, R):
         E, call, node = upd
         want = (M(topv, 'start_of_span'), SUB(M(topv, 'span_length'), LIT(1)), topv)
         ok = [canon(a) for a in call[3]] == [canon(a) for a in want]
+        if not ok and len(call[3]) == 1 and call[3][0] == topv:
+            # update(item): an overload that finds the cell from the item's own span and hands on to update(row, column, item)
+            for u1 in [u_ for u_ in cxx.method(m.decls['chart'], 'update', all_=True) if len(cxx.params_of(u_)) == 1]:
+                it_ = V(cxx.params_of(u1)[0].name)
+                ps1 = Paths(u1).paths
+                if len(ps1) == 1 and not [e for e in ps1[0][1] if e[0] != 'decl'] and ps1[0][2] is not None:
+                    r1 = ps1[0][2]
+                    for e in ps1[0][1]:
+                        if e[0] == 'decl':
+                            r1 = cxx.subst(r1, {V(e[1]): e[2]})
+                    if r1[0] == 'mcall' and r1[1] in (('this',), ('deref', ('this',))) and r1[2] == 'update' and \
+                            [canon(a) for a in r1[3]] == [canon(M(it_, 'start_of_span')), canon(SUB(M(it_, 'span_length'), LIT(1))), canon(it_)]:
+                        ok = True
         rep.check(ok, R, _w(node.line), 'search:update-args',
                   'the popped item is offered to chart cell (start, span_length-1)',
                   'chart.update is called with (%s)' % ', '.join(canon(a) for a in call[3]))
@@ -1834,3 +1887,228 @@ def r_beam(m, rep, R):
             rep.check(before, R, _w(d.line), 'beam:best-before-pop',
                       'the best tag of the word is read before any candidate is popped',
                       'threshold reads top() after candidates were popped')
+
+
+# ---------------------------------------------------------------------------------------------------------------------
+# chart::update judged on its paths with the cell's own methods read in place
+# ---------------------------------------------------------------------------------------------------------------------
+_CELL = V('<cell>')
+
+
+def _nested_cell(ch):
+    for k in ch.walk():
+        if k.kind == 'CXXRecordDecl' and k.name == 'cell' and cxx.fields_of(k):
+            return k
+    return None
+
+
+def chart_update_summary(m):
+    """-> dict(ok, why, table, registers_in_update, accessor) for chart::update(row, column, item) with every call of a
+    method of the cell (contains / emplace / add / insert_if_new_category / empty / size ..) replaced by that method's own
+    paths.  The judgement is by outcome: for every combination of (n-best mode, category already in the cell, cell still
+    empty) exactly one path applies; it hands back nullptr and stores nothing exactly when !nbest and the category is
+    there, otherwise it stores the item once, hands back the address of the stored copy and -- in 1-best mode -- has the
+    category recorded; if update itself lists the cell under its span, it does so exactly when the cell was empty."""
+    ch = m.decls['chart']
+    cell = _nested_cell(ch)
+    if cell is None:
+        return {'ok': False, 'why': 'chart::cell not found'}
+    upds = [u for u in cxx.method(ch, 'update', all_=True) if len(cxx.params_of(u)) == 3]
+    if len(upds) != 1:
+        return {'ok': False, 'why': 'chart::update(row, column, item) not found'}
+    u = upds[0]
+    pr = [p.name for p in cxx.params_of(u)]
+    ROW, COL, ITEM = V(pr[0]), V(pr[1]), V(pr[2])
+    CAT = M(ITEM, 'cat')
+    chart_methods = {k.name: k for k in ch.kids if k.kind == 'CXXMethodDecl' and any(c.kind == 'CompoundStmt' for c in k.kids)}
+    cell_methods = {k.name: k for k in cell.kids if k.kind == 'CXXMethodDecl' and any(c.kind == 'CompoundStmt' for c in k.kids)}
+    flag = None
+    for ctor in [k for k in ch.kids if k.kind == 'CXXConstructorDecl' and len(cxx.params_of(k)) == 2]:
+        p2 = cxx.params_of(ctor)[1].name
+        for init in ctor.kids:
+            if init.kind == 'CXXCtorInitializer' and [x.ref for x in init.walk() if x.kind == 'DeclRefExpr'] == [p2]:
+                flag = init.name
+    if flag is None:
+        return {'ok': False, 'why': 'n-best flag of chart not found'}
+    NB = M(('this',), flag)
+    accessor = [None]
+
+    def is_cell_sel(t):
+        if canon(t) in (canon(IDX(('this',), ROW, COL)), canon(IDX(('deref', ('this',)), ROW, COL))):
+            accessor[0] = 'operator()'
+            return True
+        if t[0] == 'mcall' and t[1] in (('this',), ('deref', ('this',))) and tuple(t[3]) == (ROW, COL) and t[2] in chart_methods and t[2] != 'update':
+            accessor[0] = t[2]
+            return True
+        if canon(t) == canon(IDX(M(('this',), 'chart_'), ADD(('bin', '*', ROW, M(('this',), 'length_')), COL))):
+            accessor[0] = None
+            return True
+        return False
+
+    def norm_cell(t):
+        if not isinstance(t, tuple):
+            return t
+        if t and isinstance(t[0], str) and is_cell_sel(t):
+            return _CELL
+        return tuple(norm_cell(x) for x in t)
+    paths = []
+    for conds, effects, ret in Paths(u).paths:
+        alias = {}
+        effs = []
+        for e in effects:
+            if e[0] == 'decl' and is_cell_sel(e[2]):
+                alias[V(e[1])] = _CELL
+            else:
+                effs.append(e)
+        sub = lambda t: norm_cell(cxx.subst(t, alias)) if t is not None else None
+        paths.append(([(sub(c), pol) for c, pol in conds], [sub(e) for e in effs], sub(ret)))
+
+    def find_call(t):
+        """first call of a cell method on the cell inside t"""
+        if not isinstance(t, tuple):
+            return None
+        if t and t[0] == 'mcall' and t[1] == _CELL and t[2] in cell_methods:
+            return t
+        for x in t:
+            r = find_call(x) if isinstance(x, tuple) else None
+            if r is not None:
+                return r
+        return None
+    summaries = {}
+
+    def callee_paths(name):
+        if name not in summaries:
+            fn = cell_methods[name]
+            ps = [p_.name for p_ in cxx.params_of(fn)]
+            this_map = {('this',): _CELL, ('deref', ('this',)): _CELL}
+            out = []
+            for conds, effects, ret in Paths(fn).paths:
+                f = lambda t: cxx.subst(cxx.subst(t, this_map), {}) if t is not None else None
+                # a call of another method of the same cell written without a receiver: this->m(..)
+                out.append(([(f(c), pol) for c, pol in conds], [f(e) for e in effects], f(ret)))
+            summaries[name] = (ps, out)
+        return summaries[name]
+    for _round in range(8):
+        new, changed = [], False
+        for conds, effects, ret in paths:
+            if ret is not None and ret[0] == 'cond':
+                new.append((conds + [(ret[1], True)], effects, ret[2]))
+                new.append((conds + [(ret[1], False)], effects, ret[3]))
+                changed = True
+                continue
+            call = None
+            for t in [c for c, _ in conds] + effects + ([ret] if ret is not None else []):
+                call = find_call(t)
+                if call is not None:
+                    break
+            if call is None:
+                new.append((conds, effects, ret))
+                continue
+            ps, qpaths = callee_paths(call[2])
+            if len(ps) != len(call[3]):
+                return {'ok': False, 'why': 'cell::%s called with %d arguments' % (call[2], len(call[3]))}
+            bind = {V(p_): a_ for p_, a_ in zip(ps, call[3])}
+            for qc, qe, qr in qpaths:
+                qc2 = [(cxx.subst(c, bind), pol) for c, pol in qc]
+                qe2 = [cxx.subst(e, bind) for e in qe]
+                qr2 = cxx.subst(qr, bind) if qr is not None else None
+                rep_ = {call: qr2} if qr2 is not None else {}
+                if qr2 is None and any(call != t and find_call(t) == call for t in [c for c, _ in conds] + ([ret] if ret is not None else [])):
+                    return {'ok': False, 'why': 'cell::%s has a path without a value but its value is used' % call[2]}
+                c2 = [(cxx.subst(c, rep_), pol) for c, pol in conds]
+                e2 = [cxx.subst(e, rep_) for e in effects if not (qr2 is None and e == call)]
+                e2 = [e for e in e2 if not (e == qr2 and qr2 is not None and e[0] in ('lit', 'var', 'addr', 'mcall') and e == cxx.subst(call, rep_) and e[0] != 'mcall')]
+                r2 = cxx.subst(ret, rep_) if ret is not None else None
+                new.append((qc2 + c2, qe2 + e2, r2))
+            changed = True
+        paths = new
+        if not changed:
+            break
+    cids = M(_CELL, 'category_ids')
+    items = M(_CELL, 'items')
+    cnt = ('mcall', cids, 'count', (CAT,))
+    has_forms = {canon(('bin', '>', cnt, LIT(0))): True, canon(('bin', '!=', cnt, LIT(0))): True, canon(('bin', '>=', cnt, LIT(1))): True, canon(cnt): True,
+                 canon(('bin', '!=', ('mcall', cids, 'find', (CAT,)), ('mcall', cids, 'end', ()))): True,
+                 canon(('bin', '==', ('mcall', cids, 'find', (CAT,)), ('mcall', cids, 'end', ()))): False,
+                 canon(('bin', '==', cnt, LIT(0))): False}
+    ins_terms = [('mem', ('mcall', cids, fn_, (CAT,)), 'second') for fn_ in ('insert', 'emplace')]
+    for t_ in ins_terms:
+        has_forms[canon(t_)] = False
+    isz = ('mcall', items, 'size', ())
+    first_forms = {canon(('mcall', items, 'empty', ())): True, canon(('bin', '==', isz, LIT(0))): True, canon(isz): False, canon(('bin', '>', isz, LIT(0))): False,
+                   canon(('bin', '!=', isz, LIT(0))): False, canon(('un', '!', isz)): True}
+    store_ret = {}
+    for fn_, end_ in (('push_front', 'front'), ('push_back', 'back'), ('emplace_front', 'front'), ('emplace_back', 'back')):
+        store_ret[canon(('mcall', items, fn_, (ITEM,)))] = canon(('addr', ('mcall', items, end_, ())))
+    regcat = {canon(('mcall', cids, 'insert', (CAT,))), canon(('mcall', cids, 'emplace', (CAT,)))}
+    regcell = {canon(('mcall', IDX(M(('this',), 'ending_cells_'), ADD(ROW, COL, LIT(1))), 'push_back', (('addr', _CELL),))): 'ending',
+               canon(('mcall', IDX(M(('this',), 'starting_cells_'), ROW), 'push_back', (('addr', _CELL),))): 'starting'}
+
+    def ev(c, env_):
+        k = canon(c)
+        if k in env_:
+            return env_[k]
+        if c[0] == 'un' and c[1] == '!':
+            v = ev(c[2], env_)
+            return None if v is None else not v
+        if c[0] == 'bin' and c[1] in ('&&', '||'):
+            a, b = ev(c[2], env_), ev(c[3], env_)
+            if c[1] == '&&' and (a is False or b is False):
+                return False
+            if c[1] == '||' and (a is True or b is True):
+                return True
+            if a is None or b is None:
+                return None
+            return (a and b) if c[1] == '&&' else (a or b)
+        if c[0] == 'lit' and isinstance(c[1], bool):
+            return c[1]
+        return None
+    table, why = [], []
+    ok = True
+    registers = any(canon(e) in regcell for _, effs, _ in paths for e in effs)
+    for nb in (False, True):
+        for has in (False, True):
+            for first in (False, True):
+                if has and first:
+                    continue
+                taken = []
+                for conds, effects, ret in paths:
+                    env_ = {canon(NB): nb}
+                    for k, v in has_forms.items():
+                        env_[k] = has if v else (not has)
+                    for k, v in first_forms.items():
+                        env_[k] = first if v else (not first)
+                    for e in effects:
+                        if e[0] == 'decl':
+                            v = ev(e[2], env_)
+                            if v is not None:
+                                env_[canon(V(e[1]))] = v
+                    vals = [ev(c, env_) for c, pol in conds]
+                    if any(v is None for v in vals):
+                        ok = False
+                        why.append('a test of update is none of (n-best flag, category in the cell, cell empty): %s' % [canon(c) for (c, pol), v in zip(conds, vals) if v is None][:1])
+                        continue
+                    if all(v == pol for v, (c, pol) in zip(vals, conds)):
+                        taken.append((conds, effects, ret))
+                if len(taken) != 1:
+                    ok = False
+                    why.append('%d paths apply when nbest=%s, category present=%s, cell empty=%s' % (len(taken), nb, has, first))
+                    continue
+                conds, effects, ret = taken[0]
+                effs = [e for e in effects if e[0] != 'decl']
+                stores = [canon(e) for e in effs if canon(e) in store_ret]
+                cat_recorded = any(canon(e) in regcat for e in effs) or any(t_ in list(subterms(x)) for t_ in ins_terms for x in [c for c, _ in conds] + [e[2] for e in effects if e[0] == 'decl'])
+                cells = sorted(regcell[canon(e)] for e in effs if canon(e) in regcell)
+                others = [canon(e) for e in effs if canon(e) not in store_ret and canon(e) not in regcat and canon(e) not in regcell]
+                want_null = (not nb) and has
+                if want_null:
+                    good = ret == LIT(None) and not stores and not others and not cells
+                else:
+                    good = len(stores) == 1 and ret is not None and canon(ret) == store_ret[stores[0]] and not others and (nb or cat_recorded)
+                    if registers:
+                        good = good and (cells == ['ending', 'starting'] if first else cells == [])
+                if not good:
+                    ok = False
+                    why.append('nbest=%s, category present=%s, cell empty=%s: returns %s after %s' % (nb, has, first, canon(ret) if ret is not None else None, [canon(e) for e in effs]))
+                table.append((nb, has, first, canon(ret) if ret is not None else None))
+    return {'ok': ok and bool(table), 'why': why[:2], 'table': table, 'registers_in_update': registers, 'accessor': accessor[0], 'cell': cell, 'update': u}
